@@ -121,6 +121,7 @@ func (e *Engine) VerifyFunc(key string) (res *FnResult) {
 	c.buildGuards(fr, st)
 	c.setupOG(fr, st)
 	c.assertAll(fr)
+	c.hookedAll(fr)
 	c.runFunction(fr, st)
 	// postconditions
 	var retPCs []Term
